@@ -29,7 +29,8 @@ RULE = (
     "crypto fees on acquisitions), single-type inputs (all other sheets must vanish) and windows that empty some sheets, x "
     "{rp2_us (4 methods), rp2_ie}; the multiset of rows over all sheets must equal the multiset of the window's fractions "
     "(asset, event id + direction, lot id, amount, dates acquired / sold in the country's format, proceeds, cost basis, gain, "
-    "LONG/SHORT, k/n labels), each row on the sheet of its type, rows contiguous, sheets without rows absent. Non-trivial = "
+    "LONG/SHORT, k/n labels), each row on the sheet of its type, rows contiguous, sheets without rows absent; size sweep: every "
+    "number of rows on one sheet from 44 below to 3 above the size of the template's sheets (thorough: 1 .. size + 130), from one asset or split over two. Non-trivial = "
     "report where >= 2 assets share a sheet or a window empties a sheet; distinct = hash of the case"
 )
 ASSUMPTIONS = [
@@ -37,8 +38,8 @@ ASSUMPTIONS = [
     "numbers are compared at 1e-12 relative (cells are doubles)",
 ]
 SETTINGS: Dict[str, Dict[str, Any]] = {
-    "quick": {"cases": 160, "budget_s": 60, "minimums": {"rows_checked": 1000, "nontrivial": 40, "sheets_checked": 400}, "required_tags": {"tag_sheets": sorted(set(TAX_SHEET_OF_TYPE.values())), "tag_country": ["us", "ie"]}},
-    "thorough": {"cases": 3000, "budget_s": 420, "minimums": {"rows_checked": 8000, "nontrivial": 400, "sheets_checked": 4000}, "required_tags": {"tag_sheets": sorted(set(TAX_SHEET_OF_TYPE.values())), "tag_country": ["us", "ie"]}},
+    "quick": {"cases": 160, "budget_s": 60, "minimums": {"rows_checked": 1000, "nontrivial": 40, "sheets_checked": 400, "size_sweep_cases": 36}, "required_tags": {"tag_sheets": sorted(set(TAX_SHEET_OF_TYPE.values())), "tag_country": ["us", "ie"]}},
+    "thorough": {"cases": 3000, "budget_s": 420, "minimums": {"rows_checked": 8000, "nontrivial": 400, "sheets_checked": 4000, "size_sweep_cases": 150}, "required_tags": {"tag_sheets": sorted(set(TAX_SHEET_OF_TYPE.values())), "tag_country": ["us", "ie"]}},
 }
 
 
@@ -50,6 +51,33 @@ def single_type_history(rng: random.Random, asset: str) -> Dict[str, Any]:
     for k in range(rng.randint(1, 4)):
         b.dispose(t + timedelta(days=30 * (k + 1)), 1, 120 + k, ttype=ttype)
     return b.done(rng, shuffle=True)
+
+
+def many_rows_history(rng: random.Random, asset: str, n: int, kind: str) -> Dict[str, Any]:
+    """Exactly n fractions of one type: n one-unit sales of one big lot (Capital Gains) or n interest payments (Interest)."""
+    b = families.HB(asset=asset)
+    t = families.T(2019, rng.randint(1, 6), rng.randint(1, 28), rng.randint(0, 23))
+    b.acquire(t, n + 3, 100)
+    for k in range(n):
+        t += timedelta(hours=rng.randint(1, 40))
+        if kind == "sales":
+            b.dispose(t, 1, 90 + k % 50)
+        else:
+            b.acquire(t, "0.5", 90 + k % 50, ttype="INTEREST")
+    return b.done(rng, shuffle=True)
+
+
+def size_sweep_case(rng: random.Random, n: int, variant: int) -> Dict[str, Any]:
+    """n rows on one sheet of the tax report, from one asset or split a + b over two assets (sizes around the number of rows the
+    report templates come with, where a sheet has to grow - or just not)."""
+    kind = "sales" if variant % 2 == 0 else "interest"
+    if variant % 4 < 2 or n < 2:
+        hists = {"AAA": many_rows_history(rng, "AAA", n, kind)}
+    else:
+        a = rng.randint(1, n - 1)
+        hists = {"AAA": many_rows_history(rng, "AAA", a, kind), "BBB": many_rows_history(rng, "BBB", n - a, kind)}
+    country = "us" if variant % 3 else "ie"
+    return {"hists": hists, "country": country, "method": rng.choice(METHODS) if country == "us" else "fifo", "from": None, "to": None, "rows_on_one_sheet": n}
 
 
 def make_case(rng: random.Random, index: int) -> Dict[str, Any]:
@@ -232,6 +260,17 @@ def _one(ctx: Any, expected: Expected, case: Dict[str, Any], name: str) -> None:
 def run_shard(ctx: Any) -> None:
     expected = Expected(ctx.scratch)
     settings = SETTINGS[ctx.tier]
+    # size sweep: every row count from a little below to a little above the size of the template's sheets (102 rows today; read
+    # from the tree's own template), single asset and split over two, both countries
+    sizes = sweep_sizes(ctx.tier)
+    for k in range(ctx.shard, len(sizes), ctx.nshards):
+        if ctx.time_left() < 6:
+            break
+        n = sizes[k]
+        case = size_sweep_case(ctx.rng("size", n), n, k)
+        ctx.count("size_sweep_cases")
+        ctx.tag("tag_rows_on_one_sheet", str(n))
+        _one(ctx, expected, case, f"c14-size-{n}")
     share = ctx.share(settings["cases"])
     for i in range(share):
         if ctx.expired():
@@ -248,6 +287,25 @@ def run_shard(ctx: Any) -> None:
                 case = {"corpus": shipped["corpus"], "hists": shipped["hists"], "country": country, "method": shipped["schedule"].get("1970", "fifo") if country == "us" and len(shipped["schedule"]) == 1 else "fifo", "from": shipped["from"], "to": shipped["to"], "extra_args": ["-n"]}
                 ctx.count("shipped_example_input_cases")
         _one(ctx, expected, case, f"c14-{index}")
+
+
+def sweep_sizes(tier: str) -> List[int]:
+    import glob
+    import os
+
+    import ezodf
+
+    from rpv.common import rp2_src
+
+    rows = set()
+    for path in glob.glob(os.path.join(rp2_src(), "rp2", "plugin", "report", "data", "*", "template_tax_report_[ui][se]_*.ods")):
+        for sheet in ezodf.opendoc(path).sheets:
+            if not sheet.name.startswith("__Legend") and sheet.name != "__styles":
+                rows.add(sheet.nrows())
+    top = max(rows or {102})
+    if tier == "quick":
+        return list(range(top - 44, top + 4))
+    return list(range(1, top + 130))
 
 
 def replay(ctx: Any, case: Dict[str, Any]) -> None:
